@@ -7,7 +7,14 @@ import (
 	"fmt"
 	"strconv"
 	"strings"
+	"sync"
+	"sync/atomic"
 	"testing"
+
+	"go.opentelemetry.io/otel"
+	"go.opentelemetry.io/otel/trace"
+	"go.opentelemetry.io/otel/trace/embedded"
+	"go.opentelemetry.io/otel/trace/noop"
 
 	recpb "github.com/libp2p/go-libp2p-record/pb"
 	"github.com/libp2p/go-libp2p/core/peer"
@@ -131,12 +138,38 @@ func errClass(err error) string {
 	return "err:" + s
 }
 
+// A tracer provider whose spans are recording, as on a node that runs with tracing switched on (the OpenTelemetry SDK is
+// not among the module's dependencies): the messenger's deferred tracing blocks then run too, and must not be able to
+// crash the node either.
+type recSpan struct{ noop.Span }
+
+func (recSpan) IsRecording() bool { return true }
+
+type recTracer struct{ embedded.Tracer }
+
+func (recTracer) Start(ctx context.Context, name string, opts ...trace.SpanStartOption) (context.Context, trace.Span) {
+	if !c10Tracing.Load() {
+		return noop.NewTracerProvider().Tracer("").Start(ctx, name, opts...)
+	}
+	s := recSpan{}
+	return trace.ContextWithSpan(ctx, s), s
+}
+
+type recTracerProvider struct{ embedded.TracerProvider }
+
+func (recTracerProvider) Tracer(string, ...trace.TracerOption) trace.Tracer { return recTracer{} }
+
+var c10Tracing atomic.Bool
+var c10TracerOnce sync.Once
+
 func runC10Line(in string) (out string) {
 	defer func() {
 		if r := recover(); r != nil {
 			out = "panic"
 		}
 	}()
+	c10TracerOnce.Do(func() { otel.SetTracerProvider(recTracerProvider{}) })
+	c10Tracing.Store(len(in)%4 != 0)
 	f := strings.Fields(in)
 	a := kvs(f)
 	ctx := context.Background()
